@@ -24,12 +24,15 @@ Proof. unfold cnt. cbn [filter]. destruct (p e); cbn [length]; lia. Qed.
 Lemma cnt_nonneg p l : 0 <= cnt p l.
 Proof. unfold cnt. lia. Qed.
 
+Lemma cnt_fail_evs p f k : p EFail = false -> cnt p (fail_evs f k) = 0.
+Proof. intros H. unfold fail_evs. destruct (f && k); [rewrite cnt_cons, H|]; reflexivity. Qed.
+
 (* ------------------------------------------------------------------ transparency *)
 
-Lemma step_fst r l zb body1 body2 st1 st2 el :
+Lemma step_fst r l zb f1 f2 body1 body2 st1 st2 el :
   (forall z a b, fst (body1 z a b) = fst (body2 z a b)) ->
   fst st1 = fst st2 ->
-  fst (step true r l zb body1 st1 el) = fst (step false r l zb body2 st2 el).
+  fst (step true r l zb f1 body1 st1 el) = fst (step false r l zb f2 body2 st2 el).
 Proof.
   intros Hb Hst. destruct el as [c [ta tb]]. unfold step. rewrite Hst.
   destruct (lz l).
@@ -43,20 +46,20 @@ Proof.
     cbn [fst] in *. subst. reflexivity.
 Qed.
 
-Lemma fold_step_fst r l zb body1 body2 :
+Lemma fold_step_fst r l zb f1 f2 body1 body2 :
   (forall z a b, fst (body1 z a b) = fst (body2 z a b)) ->
   forall els st1 st2, fst st1 = fst st2 ->
-  fst (fold_left (step true r l zb body1) els st1)
-  = fst (fold_left (step false r l zb body2) els st2).
+  fst (fold_left (step true r l zb f1 body1) els st1)
+  = fst (fold_left (step false r l zb f2 body2) els st2).
 Proof.
   intros Hb. induction els as [|el els IH]; intros st1 st2 Hst; cbn [fold_left]; auto.
   apply IH. apply step_fst; auto.
 Qed.
 
-Lemma run_transparent : forall lv r da db z a b,
-  fst (run true r da db lv z a b) = fst (run false r da db lv z a b).
+Lemma run_transparent : forall lv r wt da db z a b,
+  fst (run true r wt da db lv z a b) = fst (run false r wt da db lv z a b).
 Proof.
-  induction lv as [|l lv IH]; intros r da db z a b; cbn [run].
+  induction lv as [|l lv IH]; intros r wt da db z a b; cbn [run].
   - unfold leaf_stmt. destruct a, b; reflexivity.
   - apply fold_step_fst; auto.
 Qed.
@@ -64,7 +67,7 @@ Qed.
 (* with collection off nothing is emitted *)
 Lemma fold_step_off r l zb body :
   (forall z a b, snd (body z a b) = []) ->
-  forall els st, snd st = [] -> snd (fold_left (step false r l zb body) els st) = [].
+  forall els st, snd st = [] -> snd (fold_left (step false r l zb false body) els st) = [].
 Proof.
   intros Hb. induction els as [|[c [ta tb]] els IH]; intros st Hst; cbn [fold_left]; auto.
   apply IH. unfold step. destruct (lz l).
@@ -77,9 +80,9 @@ Proof.
     rewrite Hst, Hb. reflexivity.
 Qed.
 
-Lemma run_off_silent : forall lv r da db z a b, snd (run false r da db lv z a b) = [].
+Lemma run_off_silent : forall lv r wt da db z a b, snd (run false r wt da db lv z a b) = [].
 Proof.
-  induction lv as [|l lv IH]; intros r da db z a b; cbn [run].
+  induction lv as [|l lv IH]; intros r wt da db z a b; cbn [run andb].
   - unfold leaf_stmt. destruct a, b; reflexivity.
   - apply fold_step_off; auto.
 Qed.
@@ -238,28 +241,6 @@ Qed.
 
 (* ------------------------------------------------------------------ linear measures of a loop *)
 
-Lemma fold_step_cnt p r l zb body (g : tree -> tree -> Z) :
-  (forall z ta tb, cnt p (snd (body z ta tb)) = g ta tb) ->
-  forall els st,
-  cnt p (snd (fold_left (step true r l zb body) els st))
-  = cnt p (snd st)
-    + sumZ (map (fun el => cnt p [EUse r] + g (fst (snd el)) (snd (snd el))) els).
-Proof.
-  intros Hb. induction els as [|[c [ta tb]] els IH]; intros st; cbn [fold_left map sumZ fold_right].
-  - lia.
-  - rewrite IH. cbn [fst snd].
-    assert (cnt p (snd (step true r l zb body st (c, (ta, tb))))
-            = cnt p (snd st) + (cnt p [EUse r] + g ta tb)) as ->; [|unfold sumZ; lia].
-    unfold step. destruct (lz l).
-    + destruct (lookup c (elems (fst st))) as [zc|].
-      * specialize (Hb zc ta tb). destruct (body zc ta tb). cbn [snd] in *.
-        rewrite !cnt_app, Hb. reflexivity.
-      * specialize (Hb (z_default zb) ta tb). destruct (body (z_default zb) ta tb).
-        cbn [snd] in *. rewrite !cnt_app, Hb. reflexivity.
-    + specialize (Hb (fst st) ta tb). destruct (body (fst st) ta tb). cbn [snd] in *.
-      rewrite !cnt_app, Hb. reflexivity.
-Qed.
-
 Lemma sumZ_map_ext {A} (f g : A -> Z) l :
   (forall x, In x l -> f x = g x) -> sumZ (map f l) = sumZ (map g l).
 Proof.
@@ -320,12 +301,38 @@ Qed.
 
 (* ------------------------------------------------------------------ counts of multiplies and updates *)
 
-Lemma run_cnt_leafs k : k = 0 \/ k = 2 ->
-  forall da db lv r z a b, forallb (fun l => la l || lb l) lv = true ->
-  op_ok la lv a -> op_ok lb lv b ->
-  cnt (is_cnt k) (snd (run true r da db lv z a b)) = spec_leafs da db lv a b.
+(* ------------------------------------------------------------------ iteration counts *)
+
+Lemma fold_step_cnt_in p r l zb fl body (g : tree -> tree -> Z) els :
+  (forall k, cnt p (fail_evs fl k) = 0) ->
+  (forall c ta tb, In (c, (ta, tb)) els -> forall z, cnt p (snd (body z ta tb)) = g ta tb) ->
+  forall st,
+  cnt p (snd (fold_left (step true r l zb fl body) els st))
+  = cnt p (snd st)
+    + sumZ (map (fun el => cnt p [EUse r] + g (fst (snd el)) (snd (snd el))) els).
 Proof.
-  intros Hk da db. induction lv as [|l lv IH]; intros r z a b Hlv Ha Hb.
+  intros Hpf. induction els as [|[c [ta tb]] els IH]; intros Hb st; cbn [fold_left map sumZ fold_right].
+  - lia.
+  - rewrite IH by (intros; eapply Hb; right; eauto). cbn [fst snd].
+    assert (cnt p (snd (step true r l zb fl body st (c, (ta, tb))))
+            = cnt p (snd st) + (cnt p [EUse r] + g ta tb)) as ->; [|unfold sumZ; lia].
+    pose proof (Hb c ta tb (or_introl eq_refl)) as H1.
+    unfold step. destruct (lz l).
+    + destruct (lookup c (elems (fst st))) as [zc|].
+      * specialize (H1 zc). destruct (body zc ta tb). cbn [snd] in *.
+        rewrite !cnt_app, H1. reflexivity.
+      * specialize (H1 (z_default zb)). destruct (body (z_default zb) ta tb).
+        cbn [snd] in *. rewrite !cnt_app, H1, Hpf, Z.add_0_r. reflexivity.
+    + specialize (H1 (fst st)). destruct (body (fst st) ta tb). cbn [snd] in *.
+      rewrite !cnt_app, H1. reflexivity.
+Qed.
+
+Lemma run_cnt_leafs k : k = 0 \/ k = 2 ->
+  forall wt da db lv r z a b, forallb (fun l => la l || lb l) lv = true ->
+  op_ok la lv a -> op_ok lb lv b ->
+  cnt (is_cnt k) (snd (run true r wt da db lv z a b)) = spec_leafs da db lv a b.
+Proof.
+  intros Hk wt da db. induction lv as [|l lv IH]; intros r z a b Hlv Ha Hb.
   - cbn [run spec_leafs]. destruct Ha as [Ha _], Hb as [Hb _]. unfold cntb in *. cbn in Ha, Hb.
     destruct a as [va|]; [|discriminate]. destruct b as [vb|]; [|discriminate].
     unfold leaf_stmt, evs_if. cbn [snd]. rewrite !cnt_cons.
@@ -334,77 +341,32 @@ Proof.
   - cbn [run spec_leafs]. cbn [forallb] in Hlv. apply andb_true_iff in Hlv. destruct Hlv as [Hl Hlv].
     assert (sorted_t a = true /\ sorted_t b = true) as [Hsa Hsb] by (unfold op_ok in *; tauto).
     rewrite iter_elems_spec by auto. fold (lv_elems da db l lv a b).
-    assert (forall c ta tb, In (c, (ta, tb)) (lv_elems da db l lv a b) ->
-            forall z', cnt (is_cnt k) (snd (run true (r + 1) da db lv z' ta tb)) = spec_leafs da db lv ta tb) as Hel.
-    { intros c ta tb Hin z'. destruct (spec_elems_ok _ _ _ _ _ _ _ _ _ Hl Ha Hb Hin). apply IH; auto. }
-    clear IH. revert Hel. generalize (lv_elems da db l lv a b) as els.
-    intros els Hel.
-    (* per-element form of fold_step_cnt *)
-    assert (forall st, cnt (is_cnt k) (snd (fold_left (step true r l (existsb lz lv) (run true (r + 1) da db lv)) els st))
-            = cnt (is_cnt k) (snd st)
-              + sumZ (map (fun el => spec_leafs da db lv (fst (snd el)) (snd (snd el))) els)) as Hf.
-    { induction els as [|[c [ta tb]] els IHe]; intros st; cbn [fold_left map sumZ fold_right]; [lia|].
-      rewrite IHe by (intros; eapply Hel; right; eauto). cbn [fst snd].
-      assert (cnt (is_cnt k) (snd (step true r l (existsb lz lv) (run true (r + 1) da db lv) st (c, (ta, tb))))
-              = cnt (is_cnt k) (snd st) + spec_leafs da db lv ta tb) as ->; [|unfold sumZ; lia].
-      pose proof (Hel c ta tb (or_introl eq_refl)) as H1.
-      unfold step. destruct (lz l).
-      - destruct (lookup c (elems (fst st))) as [zc|].
-        + specialize (H1 zc). destruct (run true (r + 1) da db lv zc ta tb). cbn [snd] in *.
-          rewrite !cnt_app, H1. unfold evs_if. rewrite cnt_cons, cnt_nil.
-          destruct Hk; subst k; cbn [is_cnt]; lia.
-        + specialize (H1 (z_default (existsb lz lv))).
-          destruct (run true (r + 1) da db lv (z_default (existsb lz lv)) ta tb). cbn [snd] in *.
-          rewrite !cnt_app, H1. unfold evs_if. rewrite cnt_cons, cnt_nil.
-          destruct Hk; subst k; cbn [is_cnt]; lia.
-      - specialize (H1 (fst st)). destruct (run true (r + 1) da db lv (fst st) ta tb). cbn [snd] in *.
-        rewrite !cnt_app, H1. unfold evs_if. rewrite cnt_cons, cnt_nil.
-        destruct Hk; subst k; cbn [is_cnt]; lia. }
-    rewrite Hf. cbn [snd]. unfold evs_if. rewrite cnt_cons, cnt_nil.
-    destruct Hk; subst k; cbn [is_cnt]; lia.
+    rewrite (fold_step_cnt_in (is_cnt k) r l _ _ _ (fun ta tb => spec_leafs da db lv ta tb)).
+    + cbn [snd]. unfold evs_if. rewrite !cnt_cons, !cnt_nil.
+      rewrite (sumZ_map_ext _ (fun el => spec_leafs da db lv (fst (snd el)) (snd (snd el)))).
+      * destruct Hk; subst k; cbn [is_cnt]; lia.
+      * intros x _. destruct Hk; subst k; cbn [is_cnt]; lia.
+    + intros k0. apply cnt_fail_evs. reflexivity.
+    + intros c ta tb Hin z'. destruct (spec_elems_ok _ _ _ _ _ _ _ _ _ Hl Ha Hb Hin). apply IH; auto.
 Qed.
 
-(* ------------------------------------------------------------------ iteration counts *)
-
-Lemma fold_step_cnt_in p r l zb body (g : tree -> tree -> Z) els :
-  (forall c ta tb, In (c, (ta, tb)) els -> forall z, cnt p (snd (body z ta tb)) = g ta tb) ->
-  forall st,
-  cnt p (snd (fold_left (step true r l zb body) els st))
-  = cnt p (snd st)
-    + sumZ (map (fun el => cnt p [EUse r] + g (fst (snd el)) (snd (snd el))) els).
-Proof.
-  induction els as [|[c [ta tb]] els IH]; intros Hb st; cbn [fold_left map sumZ fold_right].
-  - lia.
-  - rewrite IH by (intros; eapply Hb; right; eauto). cbn [fst snd].
-    assert (cnt p (snd (step true r l zb body st (c, (ta, tb))))
-            = cnt p (snd st) + (cnt p [EUse r] + g ta tb)) as ->; [|unfold sumZ; lia].
-    pose proof (Hb c ta tb (or_introl eq_refl)) as H1.
-    unfold step. destruct (lz l).
-    + destruct (lookup c (elems (fst st))) as [zc|].
-      * specialize (H1 zc). destruct (body zc ta tb). cbn [snd] in *.
-        rewrite !cnt_app, H1. reflexivity.
-      * specialize (H1 (z_default zb)). destruct (body (z_default zb) ta tb).
-        cbn [snd] in *. rewrite !cnt_app, H1. reflexivity.
-    + specialize (H1 (fst st)). destruct (body (fst st) ta tb). cbn [snd] in *.
-      rewrite !cnt_app, H1. reflexivity.
-Qed.
-
-Lemma run_cnt_use : forall da db lv r z a b q,
+Lemma run_cnt_use : forall wt da db lv r z a b q,
   forallb (fun l => la l || lb l) lv = true ->
   op_ok la lv a -> op_ok lb lv b ->
-  cnt (is_use q) (snd (run true r da db lv z a b))
+  cnt (is_use q) (snd (run true r wt da db lv z a b))
   = if Z.ltb q r then 0 else spec_bodies (Z.to_nat (q - r)) da db lv a b.
 Proof.
-  intros da db. induction lv as [|l lv IH]; intros r z a b q Hlv Ha Hb.
+  intros wt da db. induction lv as [|l lv IH]; intros r z a b q Hlv Ha Hb.
   - cbn [run spec_bodies]. unfold leaf_stmt, evs_if.
     destruct a, b; cbn [snd]; try (destruct (Z.ltb q r); reflexivity).
     destruct (Z.eqb (leaf_val z) 0); destruct (Z.ltb q r); reflexivity.
   - cbn [run]. cbn [forallb] in Hlv. apply andb_true_iff in Hlv. destruct Hlv as [Hl Hlv].
     assert (sorted_t a = true /\ sorted_t b = true) as [Hsa Hsb] by (unfold op_ok in *; tauto).
     rewrite iter_elems_spec by auto. fold (lv_elems da db l lv a b).
-    rewrite (fold_step_cnt_in (is_use q) r l (existsb lz lv) (run true (r + 1) da db lv)
+    rewrite (fold_step_cnt_in (is_use q) r l _ _ _
                (fun ta tb => if Z.ltb q (r + 1) then 0
                              else spec_bodies (Z.to_nat (q - (r + 1))) da db lv ta tb)).
+    2:{ intros k0. apply cnt_fail_evs. reflexivity. }
     2:{ intros c ta tb Hin z'. destruct (spec_elems_ok _ _ _ _ _ _ _ _ _ Hl Ha Hb Hin). apply IH; auto. }
     cbn [snd]. unfold evs_if. rewrite !cnt_cons, !cnt_nil. cbn [is_use is_reg].
     destruct (Z.ltb_spec q r) as [Hlt|Hge].
@@ -432,17 +394,19 @@ Proof.
   rewrite Ha, Hb; lia.
 Qed.
 
-Lemma fold_step_reg_first q r l zb body :
+Lemma fold_step_reg_first q r l zb fl body :
   q <> r ->
   (forall z ta tb, reg_first q (snd (body z ta tb))) ->
   forall els st, reg_first q (snd st) ->
-  reg_first q (snd (fold_left (step true r l zb body) els st)).
+  reg_first q (snd (fold_left (step true r l zb fl body) els st)).
 Proof.
   intros Hq Hb. induction els as [|[c [ta tb]] els IH]; intros st Hst; cbn [fold_left]; auto.
   apply IH.
   assert (reg_first q (evs_if true [EUse r])) as Hu.
   { unfold reg_first, evs_if. rewrite !cnt_cons, !cnt_nil. cbn [is_use is_reg].
     destruct (Z.eqb_spec r q); lia. }
+  assert (forall k, reg_first q (fail_evs fl k)) as Hfe.
+  { intros k _. apply cnt_fail_evs. reflexivity. }
   unfold step. destruct (lz l).
   - destruct (lookup c (elems (fst st))) as [zc|].
     + specialize (Hb zc ta tb). destruct (body zc ta tb). cbn [snd] in *.
@@ -453,12 +417,12 @@ Proof.
     repeat apply reg_first_app; auto.
 Qed.
 
-Lemma fold_step_prefix r l zb body :
-  forall els st, exists ext, snd (fold_left (step true r l zb body) els st) = snd st ++ ext.
+Lemma fold_step_prefix r l zb fl body :
+  forall els st, exists ext, snd (fold_left (step true r l zb fl body) els st) = snd st ++ ext.
 Proof.
   induction els as [|[c [ta tb]] els IH]; intros st; cbn [fold_left].
   - exists []. rewrite app_nil_r. reflexivity.
-  - destruct (IH (step true r l zb body st (c, (ta, tb)))) as [ext Hext]. rewrite Hext.
+  - destruct (IH (step true r l zb fl body st (c, (ta, tb)))) as [ext Hext]. rewrite Hext.
     unfold step. destruct (lz l).
     + destruct (lookup c (elems (fst st))) as [zc|].
       * destruct (body zc ta tb). cbn [snd]. eexists. rewrite <- app_assoc. reflexivity.
@@ -466,17 +430,16 @@ Proof.
     + destruct (body (fst st) ta tb). cbn [snd]. eexists. rewrite <- app_assoc. reflexivity.
 Qed.
 
-Lemma run_reg_first : forall da db lv r z a b q, reg_first q (snd (run true r da db lv z a b)).
+Lemma run_reg_first : forall wt da db lv r z a b q, reg_first q (snd (run true r wt da db lv z a b)).
 Proof.
-  intros da db. induction lv as [|l lv IH]; intros r z a b q.
+  intros wt da db. induction lv as [|l lv IH]; intros r z a b q.
   - cbn [run]. unfold reg_first, leaf_stmt, evs_if. intros _.
     destruct a, b; cbn [snd]; try reflexivity.
     destruct (Z.eqb (leaf_val z) 0); reflexivity.
   - cbn [run]. destruct (Z.eq_dec q r) as [Heq|Hne].
     + subst q. unfold reg_first. intros H. exfalso.
-      destruct (fold_step_prefix r l (existsb lz lv) (run true (r + 1) da db lv)
-                  (iter_elems l da db (existsb la lv) (existsb lb lv) a b)
-                  (z, evs_if true [ERegister r])) as [ext Hext].
+      match type of H with context [fold_left (step true r l ?zb ?fl ?bd) ?els ?st0] =>
+        destruct (fold_step_prefix r l zb fl bd els st0) as [ext Hext] end.
       rewrite Hext in H. cbn [snd] in H. unfold evs_if in H.
       rewrite cnt_app, cnt_cons, cnt_nil in H. cbn [is_reg] in H. rewrite Z.eqb_refl in H.
       pose proof (cnt_nonneg (is_reg r) ext). lia.
@@ -484,3 +447,26 @@ Proof.
       cbn [snd]. unfold reg_first, evs_if. intros _. reflexivity.
 Qed.
 
+
+(* ------------------------------------------------------------------ the populate assertion *)
+
+Lemma cnt_zero_existsb p l : cnt p l = 0 -> existsb p l = false.
+Proof.
+  induction l as [|x l IH]; cbn [existsb]; auto. rewrite cnt_cons.
+  pose proof (cnt_nonneg p l). destruct (p x); intros Hc; [lia|]. apply IH. lia.
+Qed.
+
+(* without a registered write trace on a shapeless output the assertion is never reached *)
+Lemma run_no_fail : forall wt da db lv r z a b,
+  (forall q, wt q = false) -> cnt is_fail (snd (run true r wt da db lv z a b)) = 0.
+Proof.
+  intros wt da db. induction lv as [|l lv IH]; intros r z a b Hwt.
+  - cbn [run]. unfold leaf_stmt, evs_if. destruct a, b; cbn [snd]; try reflexivity.
+    destruct (Z.eqb (leaf_val z) 0); reflexivity.
+  - cbn [run]. rewrite Hwt. cbn [andb].
+    rewrite (fold_step_cnt_in is_fail r l _ false _ (fun _ _ => 0)).
+    + cbn [snd]. unfold evs_if. rewrite !cnt_cons, !cnt_nil. cbn [is_fail].
+      rewrite (sumZ_map_ext _ (fun _ => 0)), sumZ_map_0; [lia|]. intros x _. lia.
+    + intros k. reflexivity.
+    + intros c ta tb _ z'. apply IH; auto.
+Qed.
